@@ -136,13 +136,22 @@ func replayMain(args []string) {
 					w.kill()
 					w = nil
 					var rq struct {
-						ID  int                    `json:"id"`
-						Fam string                 `json:"fam"`
-						Src string                 `json:"src"`
-						Ast map[string]interface{} `json:"ast"`
-						Inp map[string]interface{} `json:"inp"`
+						ID    int                    `json:"id"`
+						Fam   string                 `json:"fam"`
+						Src   string                 `json:"src"`
+						Ast   map[string]interface{} `json:"ast"`
+						Inp   map[string]interface{} `json:"inp"`
+						Mode  string                 `json:"mode"`
+						Bytes []interface{}          `json:"bytes"`
 					}
 					json.Unmarshal(line, &rq)
+					if rq.Mode == "compile" {
+						ev := M{"id": rq.ID, "ev": "Lex", "fam": rq.Fam, "bytes": rq.Bytes, "toks": []interface{}{}, "out": M{"o": fail}}
+						b, _ = json.Marshal(ev)
+						b = append(b, '\n')
+						results <- b
+						continue
+					}
 					src := rq.Src
 					if src == "" && rq.Ast != nil {
 						src = unparse(rq.Ast)
